@@ -25,6 +25,7 @@ ASSUMPTIONS = [
 ]
 DECIDING = ["objects_compared", "operations"]
 THOROUGH_SHARDS = 12
+REPLAY_BY_SEED = True  # histories are regenerated from the seed; see main.py
 
 
 class Live:
